@@ -51,7 +51,7 @@ fn main() {
             let z = walleye::zobrist::ZobristHasher::create_zobrist_hasher();
             let p = referee::Pos::from_fen(&fen).expect("fen");
             let (b, t) = walleye::sb::setup(&p, &[], &z).expect("setup");
-            let r = walleye::sb::run_search(&b, &t, u64::MAX, Some(depth + 1), 5_000_000);
+            let r = walleye::sb::run_search(&b, &t, u64::MAX, Some(depth + 1), std::env::var("VERIF_NODE_CAP").ok().and_then(|s| s.parse().ok()).unwrap_or(5_000_000));
             for (q, l) in &r.lines {
                 println!("q{} {}", q, l);
             }
